@@ -380,7 +380,7 @@ def _run_shard(ctx, jobs, cwd, timeout_ms, maxstack=16):
         p = subprocess.Popen([ctx.worker, "c04-run", "-maxstack", str(maxstack)], stdin=subprocess.PIPE, stdout=subprocess.PIPE, stderr=subprocess.PIPE,
                              env=ctx.goenv(), cwd=cwd)
         try:
-            out, err = p.communicate(inp.encode(), timeout=len(todo) * (15 * timeout_ms / 1000.0 + 5) + 60)
+            out, err = p.communicate(inp.encode(), timeout=min(1000000, len(todo) * (15 * timeout_ms / 1000.0 + 5) + 60))
         except subprocess.TimeoutExpired:
             p.kill()
             out, err = p.communicate()
